@@ -143,7 +143,7 @@ func C02(c *Ctx) error {
 	n := c.N(6, 40)
 	perMethod := c.N(25, 120)
 	bt, items, err := buildBatch(n, func(i int) *ir.Request {
-		return gen.GenRuntimeFile(r.Fork(fmt.Sprint("c02-", i)), i, gen.RuntimeOpts{ManyMethods: i%2 == 1, RepeatedQuery: true})
+		return gen.GenRuntimeFile(r.Fork(fmt.Sprint("c02-", i)), i, gen.RuntimeOpts{ManyMethods: i%2 == 1, RepeatedQuery: true, JSONNames: i%3 == 0})
 	}, scratch.AddOpts{GoHTTP: true}, false)
 	if err != nil {
 		return err
